@@ -54,6 +54,9 @@ type Conn struct {
 	localPeerID  core.PeerID
 	bandwidth    *bandwidth.Limiter
 
+	// Upper bound for the length a remote peer may declare for a piece payload.
+	maxPieceLength int64
+
 	events Events
 
 	nc            net.Conn
@@ -106,6 +109,7 @@ func newConn(
 		createdAt:      clk.Now(),
 		localPeerID:    localPeerID,
 		bandwidth:      bandwidth,
+		maxPieceLength: info.MaxPieceLength(),
 		events:         events,
 		nc:             nc,
 		config:         config,
@@ -200,6 +204,12 @@ func (c *Conn) IsClosed() bool {
 }
 
 func (c *Conn) readPayload(length int32) ([]byte, error) {
+	// The length is chosen by the remote peer: never allocate more than a
+	// piece of this torrent can hold.
+	if length < 0 || int64(length) > c.maxPieceLength {
+		return nil, fmt.Errorf(
+			"invalid payload length %d: max piece length is %d", length, c.maxPieceLength)
+	}
 	if err := c.bandwidth.ReserveIngress(int64(length)); err != nil {
 		c.log().Errorf("Error reserving ingress bandwidth for piece payload: %s", err)
 		return nil, fmt.Errorf("ingress bandwidth: %s", err)
